@@ -31,6 +31,9 @@ func NewCollector(cfg *ucfg.Config, opts ...ucfg.Option) *Collector {
 	if cfg == nil {
 		cfg = ucfg.New()
 	}
+	// the options given now are the collector's options: keep a copy, the
+	// caller may reuse its slice
+	opts = append([]ucfg.Option(nil), opts...)
 	return &Collector{config: cfg, err: nil, opts: opts}
 }
 
